@@ -173,13 +173,53 @@ def replay(beh, idx, full=True, repeat=True):
         via = uses[i][1]
         # (keys drawn by plain code inside a Python loop are not drawn inside nn.while_loop, so later counters differ)
         no_while_before = not any(v.startswith('while') or v == 'remat_p' for _, v in uses[:i])      # (nor a stream-subset lift)
-        if j is not None and via in ('remat', 'mapvars', 'remat_f', 'mapvars_f') and no_while_before and not np.array_equal(plain['out'][j], first['out'][i]):
+        if j is not None and via in ('remat', 'mapvars', 'remat_f', 'mapvars_f', 'mapvars_ro') and no_while_before and not np.array_equal(plain['out'][j], first['out'][i]):
           only_key = np.array_equal(plain['out'][j][:3], first['out'][i][:3])
           viol.append(('C05', key + (':share_scope-attr-child-rng-path' if f15 and only_key else ''),
                        f'use {i + 1} {uses[i]}: output (counter, parameter, drawn key) differs from the plain method'))
       if mut and ds.snapshot(plain['ret']) != ds.snapshot(first['ret']):
         viol.append(('C05', key, 'updated collections differ from those of the equivalent plain program'))
   return viol
+
+
+def multi_method_checks(chk):
+  """C05: nn.jit / nn.remat of a class with several lifted methods (methods=[...]): every method keeps its own body."""
+  import flax.linen as nn
+  import jax.numpy as jnp
+
+  class Two(nn.Module):
+    def setup(self):
+      self.a = ds.Leaf()
+      self.b = ds.Mid()
+
+    def first(self):
+      return self.a()
+
+    def second(self):
+      return self.b() + jnp.asarray([1000, 0, 0, 0, 0], jnp.uint32)
+
+    def __call__(self):
+      return jnp.stack([self.first(), self.second(), self.first()])
+  rngs = lc.rngs_for(['params'])
+  variables = Two().init(rngs)
+  want = {m: np.asarray(Two().apply(variables, mutable=['st'], method=m)[0]) for m in ('first', 'second', '__call__')}
+  for lname, lift in (('jit', nn.jit), ('remat', nn.remat)):
+    for methods in (['first', 'second'], ['second', 'first'], ['first', 'second', '__call__']):
+      key = f'C05:multi-method:{lname}:{"+".join(methods)}'
+      chk.count(key)
+      try:
+        L = lift(Two, methods=methods)
+        got = {m: np.asarray(L().apply(variables, mutable=['st'], method=m)[0]) for m in (methods + ['__call__'])}
+        iv = L().init(rngs)
+      except Exception as e:
+        chk.violation(key, f'raised {type(e).__name__}: {str(e)[:200]}', {})
+        continue
+      bad = [m for m in got if got[m].shape != want[m].shape or not np.array_equal(got[m][..., :3], want[m][..., :3])]
+      if bad:
+        chk.violation(key, f'nn.{lname}(Cls, methods={methods}): method(s) {bad} return {[got[m][..., 0].tolist() for m in bad]}, the plain class '
+                           f'{[want[m][..., 0].tolist() for m in bad]} (counters; a lifted method executed another method\'s body)', {})
+      if set(ds.flatten(iv)) != set(ds.flatten(variables)):
+        chk.violation(key, f'init of the lifted class creates {sorted(ds.flatten(iv))}, the plain class {sorted(ds.flatten(variables))}', {})
 
 
 def unbind_checks(chk):
@@ -272,6 +312,8 @@ def run(chk, prop):
         chk.violation(f'{prop}:{key}', what, beh)
   if prop == 'C02':
     unbind_checks(chk)
+  if prop == 'C05':
+    multi_method_checks(chk)
   chk.cov['setup_behaviours_replayed'] = len(seen)
   if sim['exports']:
     b = sim['exports'][len(sim['exports']) // 2]
